@@ -39,7 +39,7 @@ def scenarios(rng, n):
                               dict(sep="recipe", sepChar=[], sepRecipe=dict(len=1, allow=4, require=4, exclude=4, allowChars=[], requireSets=[], excludeChars=[]))])
             wl = dict(words=[o(w) for w in words], nolist=0, len=rng.randint(1, 5), cap=rng.choice(wlfam.SCHEMES))
             wl.update(sep)
-            out.append(dict(kind="wl", wl=wl, maxTrials=0, failRateOne=0, mode="paths", paths=3, maxLeaves=0, tag="distinctive-words", reps=0))
+            out.append(dict(kind="wl", wl=wl, maxTrials=0, failRateOne=0, mode="paths", paths=4, maxLeaves=0, tag="distinctive-words", reps=0))
     return out
 
 
